@@ -244,7 +244,7 @@ func TestC14Sched(t *testing.T) {
 		}, resume, maxSched, 400)
 		w.Flush()
 		f.Close()
-		o.summary(map[string]any{"traces": nTraces, "events": nEvents, "deadlocks": nDeadlock, "panics": nPanic, "truncated": trunc, "next": next, "violations": o.nV})
+		o.summary(map[string]any{"traces": nTraces, "events": nEvents, "deadlocks": nDeadlock, "panics": nPanic, "truncated": trunc, "transient_blocks_resolved_by_patience": rescuedByPatience, "next": next, "violations": o.nV})
 		os.Exit(0)
 	})
 }
